@@ -58,16 +58,16 @@ BOUNDED_SIB = "sibling offsets are bounded by the number of siblings held in mem
 VMPC = "vmp_consistent"
 
 SITES = {
-    'proof::multi_proof::CommonSiblings::advance|call:index|[self.$1]|#1': ('invariant', 'vmp_consistent'),
-    'proof::multi_proof::CommonSiblings::advance|call:index|[self.$1]|#2': ('invariant', 'vmp_consistent'),
-    'proof::multi_proof::CommonSiblings::advance|assert:Overflow:Add|self.$1 += 1|#1': ('reviewed', 'counts bisections of the proof'),
-    'proof::multi_proof::CommonSiblings::advance|diverge:assert_failed|assert_eq!($1.$2.$3, self.$4)|#1': ('invariant', 'vmp_consistent'),
-    'proof::multi_proof::CommonSiblings::advance|assert:Overflow:Add|$1.$2 + 1|#1': ('reviewed', 'start_depth <= 256'),
-    'proof::multi_proof::CommonSiblings::advance|assert:Overflow:Sub|$1.$2.$3 - $1.$2.$4|#1': ('invariant', 'vmp_consistent'),
-    'proof::multi_proof::CommonSiblings::advance|assert:Overflow:Sub|$1.$2 - $3|#1': ('invariant', 'vmp_consistent'),
-    'proof::multi_proof::CommonSiblings::advance|assert:Overflow:Add|$1.$2 - $3 + 1|#1': ('reviewed', 'depth <= 256'),
-    'proof::multi_proof::CommonSiblings::advance|assert:Overflow:Add|self.$1 += 1|#2': ('reviewed', 'counts terminals of the proof'),
-    'proof::multi_proof::CommonSiblings::extend|call:index|[self.$1..$2]|#1': ('invariant', 'vmp_consistent'),
+    'proof::multi_proof::CommonSiblings::advance|call:index|[self]|#1': ('invariant', 'vmp_consistent'),
+    'proof::multi_proof::CommonSiblings::advance|call:index|[self]|#2': ('invariant', 'vmp_consistent'),
+    'proof::multi_proof::CommonSiblings::advance|assert:Overflow:Add|self += 1|#1': ('reviewed', 'counts bisections of the proof'),
+    'proof::multi_proof::CommonSiblings::advance|diverge:assert_failed|assert_eq!($1, self)|#1': ('invariant', 'vmp_consistent'),
+    'proof::multi_proof::CommonSiblings::advance|assert:Overflow:Add|$1 + 1|#1': ('reviewed', 'start_depth <= 256'),
+    'proof::multi_proof::CommonSiblings::advance|assert:Overflow:Sub|$1 - $1|#1': ('invariant', 'vmp_consistent'),
+    'proof::multi_proof::CommonSiblings::advance|assert:Overflow:Sub|$1 - $2|#1': ('invariant', 'vmp_consistent'),
+    'proof::multi_proof::CommonSiblings::advance|assert:Overflow:Add|$1 - $2 + 1|#1': ('reviewed', 'depth <= 256'),
+    'proof::multi_proof::CommonSiblings::advance|assert:Overflow:Add|self += 1|#2': ('reviewed', 'counts terminals of the proof'),
+    'proof::multi_proof::CommonSiblings::extend|call:index|[self..$1]|#1': ('invariant', 'vmp_consistent'),
     'proof::multi_proof::CommonSiblings::extend|assert:Overflow:Add|$1 + $2|#1': ('reviewed', 'depth + sibling count, both small'),
     'proof::multi_proof::VerifiedMultiProof::confirm_nonexistence_inner|call:index|[$1]|#1': ('reviewed', 'private; reached with an index returned by find_index_for (a binary-search hit) or after the bounds-checked access of the *_with_index caller'),
     'proof::multi_proof::VerifiedMultiProof::confirm_nonexistence_with_index|call:index|[$1]|#1': ('reviewed', 'documented caller contract (`# Panics`): the index is chosen by the verifying application (normally the result of find_index_for), never by the prover'),
@@ -77,24 +77,24 @@ SITES = {
     'proof::multi_proof::VerifiedMultiProof::confirm_value_with_index|call:index|[$1]|#1': ('reviewed', 'documented caller contract (`# Panics`): the index is chosen by the verifying application, never by the prover'),
     'proof::multi_proof::VerifiedMultiProof::confirm_value_with_index|call:index|[..$1]|#1': ('invariant', 'vmp_depth'),
     'proof::multi_proof::VerifiedMultiProof::confirm_value_with_index|call:index|[..$1]|#2': ('invariant', 'vmp_depth'),
-    'proof::multi_proof::VerifiedMultiProof::find_index_for::{closure}|call:index|[..$1.$2]|#1': ('invariant', 'vmp_depth'),
-    'proof::multi_proof::VerifiedMultiProof::find_index_for::{closure}|call:index|[..$1.$2]|#2': ('invariant', 'vmp_depth'),
+    'proof::multi_proof::VerifiedMultiProof::find_index_for::{closure}|call:index|[..$1]|#1': ('invariant', 'vmp_depth'),
+    'proof::multi_proof::VerifiedMultiProof::find_index_for::{closure}|call:index|[..$1]|#2': ('invariant', 'vmp_depth'),
     'proof::multi_proof::hash_and_compact_terminal|assert:Overflow:Add|($1 + 1)|#1': ('reviewed', 'n <= 256'),
     'proof::multi_proof::hash_and_compact_terminal|assert:Overflow:Sub|$1 - ($2 + 1)|#1': ('guarded', 'PathPrefixOfAnother', 'sub'),
     'proof::multi_proof::hash_and_compact_terminal|assert:Overflow:Sub|$1 - $2|#1': ('reviewed', 'up_layers is skip or skip - (n + 1)'),
-    'proof::multi_proof::hash_and_compact_terminal|call:index|[..$1.$2]|#1': ('invariant', 'vmp_depth'),
+    'proof::multi_proof::hash_and_compact_terminal|call:index|[..$1]|#1': ('invariant', 'vmp_depth'),
     'proof::multi_proof::hash_and_compact_terminal|call:unwrap|$1.pop().unwrap()|#1': ('reviewed', '`last()` was just observed to be Some'),
     'proof::multi_proof::hash_and_compact_terminal|call:unwrap|$1.$2($3).unwrap()|#1': ('invariant', 'vmp_consistent'),
     'proof::multi_proof::hash_and_compact_terminal|assert:Overflow:Sub|$1 -= 1|#1': ('reviewed', 'the loop runs at most up_layers <= skip = initial cur_layer times'),
-    'proof::multi_proof::terminal_contains|call:index|[..$1.$2]|#1': ('invariant', 'vmp_depth'),
-    'proof::multi_proof::terminal_contains|call:index|[..$1.$2]|#2': ('invariant', 'vmp_depth'),
-    'proof::multi_proof::verify|call:with_capacity|$1::$2($3.$4.len())|#1': ('reviewed', 'the capacity is the length of the proof\'s own `paths` Vec, which is already in memory: no larger than the input'),
+    'proof::multi_proof::terminal_contains|call:index|[..$1]|#1': ('invariant', 'vmp_depth'),
+    'proof::multi_proof::terminal_contains|call:index|[..$1]|#2': ('invariant', 'vmp_depth'),
+    'proof::multi_proof::verify|call:with_capacity|$1::$2($3.len())|#1': ('reviewed', 'the capacity is the length of the proof\'s own `paths` Vec, which is already in memory: no larger than the input'),
     'proof::multi_proof::verify|call:index|[$1]|#1': ('reviewed', 'i ranges over 0..multi_proof.paths.len()'),
     'proof::multi_proof::verify|assert:Overflow:Sub|$1 - 1|#1': ('reviewed', 'under `if i > 0`'),
     'proof::multi_proof::verify|call:index|[$1 - 1]|#1': ('reviewed', 'under `if i > 0`, i < len'),
     'proof::multi_proof::verify_range|assert:BoundsCheck|$1[0]|#1': ('reviewed', 'inside `if paths.len() == 1`'),
-    'proof::multi_proof::verify_range|assert:Overflow:Sub|$1.$2 - $3|#1': ('guarded', 'MalformedProof', 'sub'),
-    'proof::multi_proof::verify_range|call:index|[$1..$2.$3]|#1': ('guarded', 'MalformedProof', 'end'),
+    'proof::multi_proof::verify_range|assert:Overflow:Sub|$1 - $2|#1': ('guarded', 'MalformedProof', 'sub'),
+    'proof::multi_proof::verify_range|call:index|[$1..$2]|#1': ('guarded', 'MalformedProof', 'end'),
     'proof::multi_proof::verify_range|call:index|[..$1]|#1': ('guarded', 'MalformedProof', 'end'),
     'proof::multi_proof::verify_range|assert:Overflow:Add|$1 + $2|#1': ('reviewed', 'sibling offsets are bounded by the number of siblings held in memory (a Vec length), far below usize::MAX'),
     'proof::multi_proof::verify_range|assert:BoundsCheck|$1[0]|#2': ('reviewed', 'paths is non-empty here: the empty range returned above'),
@@ -107,20 +107,20 @@ SITES = {
     'proof::multi_proof::verify_range|call:unwrap_err|$1.unwrap_err()|#1': ('reviewed', 'the comparator never returns Ordering::Equal'),
     'proof::multi_proof::verify_range|assert:Overflow:Add|$1 + $2|#3': ('reviewed', 'sibling offsets are bounded by the number of siblings held in memory (a Vec length), far below usize::MAX'),
     'proof::multi_proof::verify_range|call:index|[..$1]|#2': ('reviewed', 'the Err index of binary_search is <= len'),
-    'proof::multi_proof::verify_range|call:index|[$1..]|#1': ('guarded', 'MalformedProof', 'start'),
+    'proof::multi_proof::verify_range|call:index|[$1..]|#3': ('guarded', 'MalformedProof', 'start'),
     'proof::multi_proof::verify_range|assert:Overflow:Add|$1 + $2|#4': ('reviewed', 'sibling offsets are bounded by the number of siblings held in memory (a Vec length), far below usize::MAX'),
-    'proof::multi_proof::verify_range|call:index|[$1..]|#2': ('reviewed', 'the Err index of binary_search is <= len'),
+    'proof::multi_proof::verify_range|call:index|[$1..]|#4': ('reviewed', 'the Err index of binary_search is <= len'),
     'proof::multi_proof::verify_range|assert:Overflow:Add|$1 + $2|#5': ('reviewed', 'sibling offsets are bounded by the number of siblings held in memory (a Vec length), far below usize::MAX'),
     'proof::multi_proof::verify_range|call:index|[$1 + $2..]|#1': ('reviewed', 'a call returns at most the length of the sibling slice it was given (single path: unique_len <= siblings.len() by the MalformedProof guard; bisection: common + left + right, each bounded by the slice it received), so common_bits + left_siblings_used <= siblings.len()'),
     'proof::multi_proof::verify_range|assert:Overflow:Add|$1 + $2|#6': ('reviewed', 'sibling offsets are bounded by the number of siblings held in memory (a Vec length), far below usize::MAX'),
     'proof::multi_proof::verify_range|assert:Overflow:Add|$1 + $2 + $3|#1': ('reviewed', 'sibling offsets are bounded by the number of siblings held in memory (a Vec length), far below usize::MAX'),
     'proof::multi_proof::verify_range|assert:Overflow:Add|$1 + $2|#7': ('reviewed', 'sibling offsets are bounded by the number of siblings held in memory (a Vec length), far below usize::MAX'),
     'proof::multi_proof::verify_range|assert:Overflow:Add|$1 + $2 + $3|#2': ('reviewed', 'sibling offsets are bounded by the number of siblings held in memory (a Vec length), far below usize::MAX'),
-    'proof::multi_proof::verify_range|call:index|[$1..$2]|#1': ('guarded', 'MalformedProof', 'start'),
+    'proof::multi_proof::verify_range|call:index|[$1..$2]|#2': ('guarded', 'MalformedProof', 'start'),
     'proof::multi_proof::verify_range|call:index|[..$1]|#3': ('guarded', 'MalformedProof', 'end'),
     'proof::multi_proof::verify_range::{closure}|assert:Overflow:Sub|$1 - 1|#1': ('reviewed', 'uncommon_start_len = common_len + 1 >= 1'),
     'proof::multi_proof::verify_range::{closure}|call:index|[$1 - 1]|#1': ('guarded', 'MalformedProof'),
-    'proof::multi_proof::verify_update|assert:Overflow:Sub|$1.$2.len() - 1|#1': ('reviewed', 'inside `for terminal_index in start..proof.inner.len()`: len >= 1'),
+    'proof::multi_proof::verify_update|assert:Overflow:Sub|$1.len() - 1|#1': ('reviewed', 'inside `for terminal_index in start..proof.inner.len()`: len >= 1'),
     'proof::multi_proof::verify_update|assert:Overflow:Add|$1 + 1|#1': ('reviewed', 'terminal_index < len'),
     'proof::multi_proof::verify_update|call:index|[$1]|#1': ('reviewed', 'terminal_index ranges over start..proof.inner.len()'),
     'proof::multi_proof::verify_update|call:index|[..]|#1': ('reviewed', 'RangeFull never panics'),
@@ -134,8 +134,8 @@ SITES = {
     'proof::multi_proof::verify_update|assert:Overflow:Add|$1 + 1|#3': ('reviewed', 'updated_index < len'),
     'proof::multi_proof::verify_update|assert:Overflow:Add|$1 + 1|#4': ('reviewed', 'updated_index < len'),
     'proof::multi_proof::verify_update::{closure}|call:index|[$1]|#1': ('reviewed', 'n = terminal_index + 1 only when terminal_index != len - 1'),
-    'proof::path_proof::PathProof::verify|call:index|[..self.$1.len()]|#1': ('guarded', 'TooManySiblings', 'end'),
-    'proof::path_proof::VerifiedPathProof::in_scope|call:index|[..self.$1.len()]|#1': ('invariant', 'vpp_keylen'),
+    'proof::path_proof::PathProof::verify|call:index|[..self.len()]|#1': ('guarded', 'TooManySiblings', 'end'),
+    'proof::path_proof::VerifiedPathProof::in_scope|call:index|[..self.len()]|#1': ('invariant', 'vpp_keylen'),
     'proof::path_proof::VerifiedPathProof::path|call:index|[..]|#1': ('reviewed', 'RangeFull never panics'),
     'proof::path_proof::verify_update|assert:Overflow:Sub|$1 - 1|#1': ('reviewed', 'short-circuit `i != 0 &&`'),
     'proof::path_proof::verify_update|assert:BoundsCheck|$1[$2 - 1]|#1': ('reviewed', 'short-circuit `i != 0 &&`, i < len'),
@@ -147,8 +147,8 @@ SITES = {
     'proof::path_proof::verify_update|assert:Overflow:Sub|$1 - $2|#1': ('reviewed', 'up_layers is skip or skip - (n + 1)'),
     'proof::path_proof::verify_update|call:unwrap|$1.pop().unwrap()|#1': ('reviewed', '`last()` was just observed to be Some'),
     'proof::path_proof::verify_update|assert:Overflow:Sub|$1 -= 1|#1': ('reviewed', 'the loop runs at most up_layers <= skip times'),
-    'proof::path_proof::verify_update|call:unwrap|$1.pop().map(|$2| $2.0).unwrap()|#1': ('reviewed', 'paths is non-empty (early return above) and every iteration pushes'),
-    'trie_pos::TriePosition::path|call:index|[..self.$1 as usize]|#1': ('invariant', 'triepos_depth'),
+    'proof::path_proof::verify_update|call:unwrap|$1.pop().map(|$2| $2).unwrap()|#1': ('reviewed', 'paths is non-empty (early return above) and every iteration pushes'),
+    'trie_pos::TriePosition::path|call:index|[..self as usize]|#1': ('invariant', 'triepos_depth'),
     'update::build_trie|assert:Overflow:Add|$1 + 1|#1': ('reviewed', 'n <= 256'),
     'update::build_trie|assert:Overflow:Add|$1 + 1|#2': ('reviewed', 'n <= 256'),
     'update::build_trie|assert:Overflow:Add|$1 + 1|#3': ('reviewed', 'n <= 256'),
